@@ -207,6 +207,10 @@ impl<M: Math> AdaptStrategy<M> for ExternalTransformAdaptation {
             return Ok(());
         }
 
+        // The step size used for the first draw after warmup is the averaged one,
+        // also if the final step size window is empty.
+        let is_last = draw == self.num_tune - 1;
+
         if draw < self.final_window_size {
             if draw < 100 {
                 if (draw > 0) && draw.is_multiple_of(10) {
@@ -228,12 +232,11 @@ impl<M: Math> AdaptStrategy<M> for ExternalTransformAdaptation {
                 )?;
             }
             self.step_size.update_estimator_early();
-            self.step_size.update_stepsize(rng, hamiltonian, false);
+            self.step_size.update_stepsize(rng, hamiltonian, is_last);
             return Ok(());
         }
 
         self.step_size.update_estimator_late();
-        let is_last = draw == self.num_tune - 1;
         self.step_size.update_stepsize(rng, hamiltonian, is_last);
         Ok(())
     }
